@@ -14,11 +14,15 @@ TECHNIQUE = "three runtime monitors: batch-vs-sequential differential on canonic
 RULE = (
     "seeded rewrite scenarios (as C01, biased to later patches that name, "
     "branch to or call labels of blocks an earlier modification moved, "
-    "split, joined or deleted). Monitor 1: scenarios with at most one "
-    "modification per block are applied in one context and again one "
-    "modification per context in address order; UUID-free canonical dumps "
-    "(temporary-label suffixes normalised, addresses ignored) must be equal "
-    "and both or neither must raise. Monitor 2: at every hook event "
+    "split, joined or deleted). Monitor 1: every scenario is applied in one context and again one "
+    "modification per context in apply()'s order (block address, offset, "
+    "registration; the location of each not yet applied modification is "
+    "found through the listing edited so far); observable facets (bytes, "
+    "symbols with temporary-label suffixes normalised, proxy groups, edges, "
+    "function attribution/entries, annotations, expressions, block "
+    "boundaries) must be equal and both or neither must raise; a difference "
+    "is keyed by the facet and by which run deviates from the edited listing "
+    "(keys of the C01-C04/C06 oracles). Monitor 2: at every hook event "
     "(apply begin/end, before each patch is assembled, after each insert and "
     "delete) block ordering vs address order, functions_by_block vs "
     "functionBlocks, return-edge cache vs CFG scan, reference cache (read-"
